@@ -636,6 +636,6 @@ func classifyAuth(c AuthCase) (bool, []string) {
 func TestSimpleAuth(t *testing.T) {
 	pbt.Run(t, pbt.Spec[AuthCase]{
 		ID: "C14", Name: "simple-auth", Gen: genAuth, Run: runAuth, Classify: classifyAuth,
-		Quick: 1400, Thorough: 3000,
+		Quick: 900, Thorough: 3000,
 	})
 }
